@@ -210,6 +210,36 @@ theorem accepted_implies_grammar_size (s : List Sym) (v : Nat) (h : parseSize s 
         · rw [← h, hkv]
       · rename_i hnot; exact absurd h (hnot v)
 
+/-- a malformed size is always a `ValueError` (the only exception client.py expects), never a `KeyError`;
+    the empty value is `None` (no reservation) -/
+theorem size_rejection_is_valueError (s : List Sym) : parseSize s ≠ .keyError ∧ (parseSize s = .none ↔ s = []) := by
+  unfold parseSize parseSizeWith
+  dsimp only
+  constructor
+  · split
+    · simp
+    · split
+      · simp
+      · have := sizeMult_ne_keyError (dropWs (takeDigits (List.map upperSym s)).2)
+        split
+        · simp
+        · rename_i e he; intro h; exact this h
+  · cases s with
+    | nil => simp
+    | cons x xs =>
+      simp only [List.isEmpty_cons, Bool.false_eq_true, if_false, reduceCtorEq, iff_false]
+      split
+      · simp
+      · split
+        · simp
+        · rename_i e he
+          intro h
+          unfold sizeMult at h
+          dsimp only at h
+          split at h
+          · simp at h
+          · split at h <;> simp at h
+
 /-! ## Dates -/
 
 /-- **documented_spellings (dates).** `YYYY-MM-DD` naming a day that exists is accepted and read as the
